@@ -262,7 +262,7 @@ def m_single(model, n, path):
     return cur
 
 
-def run_queries(nodes, model, case):
+def run_queries(nodes, model, case, maxlen=3):
     """Evaluate every query on every node; return (problems, n_queries)."""
     probs = []
     nq = 0
@@ -282,7 +282,7 @@ def run_queries(nodes, model, case):
                              expected=exp, observed=obs, query=q))
 
     paths = [None, []]
-    for ln in (1, 2, 3):
+    for ln in range(1, maxlen + 1):
         paths += [list(t) for t in itertools.product(qnames, repeat=ln)]
 
     for n in range(k):
@@ -401,7 +401,13 @@ def expand(item):
             succ.append((op, None, e.probs, "prefix:violation"))
             continue
         case = dict(base_case, op=op)
+        # query - edit - query on the same objects: whatever a query remembers must not outlive the edit
+        wl = config.get("warm_maxlen", 2)
+        _, nq1 = run_queries(nodes2, model2, base_case, wl)       # (verdicts of this pass are those of the state itself)
         probs = step(nodes2, model2, op, case)
+        if not probs:
+            probs, nq2 = run_queries(nodes2, model2, dict(case, queries_before_and_after=True), wl)
+            nq += nq1 + nq2
         if probs:
             succ.append((op, None, probs, op[0] + ":violation"))
         else:
@@ -415,6 +421,13 @@ def replay(case):
         nodes, model = replay_history(names, case["history"])
     except PrefixFailed as e:
         return e.probs
+    if case.get("queries_before_and_after"):
+        wl = case["config"].get("warm_maxlen", 2)
+        run_queries(nodes, model, case, wl)
+        probs = step(nodes, model, case["op"], case)
+        if not probs:
+            probs, _ = run_queries(nodes, model, case, wl)
+        return probs
     if "op" in case:
         return step(nodes, model, case["op"], case)
     probs, _ = run_queries(nodes, model, {"config": case["config"], "history": case["history"]})
@@ -427,7 +440,7 @@ def explore(tier):
     per = []
     fix = True
     for names in UNIVERSES[tier]:
-        config = {"names": names}
+        config = {"names": names, "warm_maxlen": 2 if len(names) <= 4 else 1}
         nodes = build(names)
         model = Model(names)
         k0 = canon(nodes, model)
@@ -452,7 +465,8 @@ def explore(tier):
         "rule": "BFS over all edit histories (add/insert-at-every-index/remove/replace+-delete/shift L,R x sib/clear "
                 "and every failing edit) per universe, deduplicated on (children lists, parent links, registered flags); "
                 "every transition is executed on the real Node objects and on the list model; all queries are evaluated "
-                "in every distinct state. distinct_nontrivial = distinct canonical forests reached.",
+                "in every distinct state, and around every transition (queries with paths up to warm_maxlen, the edit, the same "
+                "queries again on the same objects). distinct_nontrivial = distinct canonical forests reached.",
         "universes": per,
         "successful_edit_transitions": nontrivial,
     }
